@@ -207,6 +207,10 @@ class Model:
                 return 'rejected', None
             return 'ok', lambda: self.groups.append(k)
         if kd == 'note':
+            if k in self.notes:
+                # adding the very note object a second time: not addressed by the statement (duplicates are named for tables, aliases,
+                # enums, groups and references only) -> not explored
+                return 'skip', None
             return 'ok', lambda: self.notes.append(k)
         if kd == 'project':
             def f():
@@ -239,9 +243,9 @@ class Model:
         if kd == 'group':
             return self._delete_from(self.groups, k, lambda x: self.groupdef[x])
         if kd == 'note':
-            # the container offers no way to remove a sticky note: "unsupported" (rejected); removing it would also be fine
+            # sticky notes compare by identity: only the very object can be removed
             if k in self.notes:
-                return 'either', lambda: self.notes.remove(k)
+                return 'ok', lambda: self.notes.remove(k)
             return 'rejected', None
         if kd == 'project':
             if self.project is None:
@@ -419,6 +423,8 @@ def step_db(universe_fn, hist, opsfn):
             verdict, fn = 'ok', None
         else:
             verdict, fn = (M.delete_project() if op[0] == 'delete_project' else getattr(M, op[0])(op[1]))
+            if verdict == 'skip':
+                return 'skip', db, U, M, False, h
             out, exc = apply_impl(db, U, op)
         if quiet:
             # no observer runs between the operations: only the outcome class is compared here, the state at the end
